@@ -103,6 +103,9 @@ def tick_choice(rng: Rng, ms: int) -> int:
     return rng.choice((1, max(1, ms - 1), ms, ms + 1, ms, 2 * ms))
 
 
+SRC_CONDS = ["POSITIVE_ACK_LIMIT_REACHED", "CHECK_LIMIT_REACHED", "CANCEL_REQUEST_RECEIVED"]
+
+
 def rand_fault_table(rng: Rng, side_conds=DECLARABLE, p: float = 0.5) -> str:
     if not rng.chance(p):
         return ""
@@ -236,7 +239,8 @@ def serve_naks_from(c: Cfg, h: str, nak_pdu: str) -> list[str]:
 
 
 def dest_session(rng: Rng, grid_only: bool = False, fs_kind: str = "mem", n_tx: int | None = None,
-                 cfg: Cfg | None = None, serve: float = 0.5, honest: bool = False) -> Session:
+                 cfg: Cfg | None = None, serve: float = 0.5, honest: bool = False,
+                 reconf: float = 0.0) -> Session:
     c = cfg or rand_cfg(rng)
     if cfg is None:
         c.faults_d = "" if grid_only else rand_fault_table(rng, p=0.35)
@@ -244,6 +248,9 @@ def dest_session(rng: Rng, grid_only: bool = False, fs_kind: str = "mem", n_tx: 
     seq = c.seqnext
     n_tx = n_tx or rng.choice((1, 1, 1, 2, 3))
     for t in range(n_tx):
+        if reconf and t > 0 and rng.chance(reconf):
+            for _ in range(rng.randrange(1, 3)):
+                s.do(f"sethandler D {rng.choice(DECLARABLE)} {rng.choice(FH)}")
         feeder = DestFeeder(rng, c, seq, grid_only, honest)
         pending: list[str] = []
         do_serve = rng.chance(serve)
@@ -282,7 +289,8 @@ def dest_session(rng: Rng, grid_only: bool = False, fs_kind: str = "mem", n_tx: 
 
 # ------------------------------------------------------------------ source sessions
 def source_session(rng: Rng, fs_kind: str = "mem", cfg: Cfg | None = None, well_behaved: bool = False,
-                   n_tx: int | None = None, always_drain: bool = False, quiet: bool = False) -> Session:
+                   n_tx: int | None = None, always_drain: bool = False, quiet: bool = False,
+                   reconf: float = 0.0) -> Session:
     c = cfg or rand_cfg(rng)
     if cfg is None and not well_behaved:
         c.faults_s = rand_fault_table(rng, ["POSITIVE_ACK_LIMIT_REACHED", "CHECK_LIMIT_REACHED",
@@ -292,6 +300,10 @@ def source_session(rng: Rng, fs_kind: str = "mem", cfg: Cfg | None = None, well_
     n_tx = n_tx or rng.choice((1, 1, 2, 3))
     ackms = int(c.ack.split("/")[0])
     for t in range(n_tx):
+        if reconf and t > 0 and rng.chance(reconf):
+            # the user reconfigures the fault handler table between two transactions
+            for _ in range(rng.randrange(1, 3)):
+                s.do(f"sethandler S {rng.choice(SRC_CONDS)} {rng.choice(FH)}")
         r = rng.random()
         if not well_behaved and r < 0.08:
             s.do(f"put S dest={c.did} src=/missing.bin dst=/x mode=- closure=- msgs=-")
@@ -304,7 +316,10 @@ def source_session(rng: Rng, fs_kind: str = "mem", cfg: Cfg | None = None, well_
         seq_s = None
         steps = rng.randrange(3, 16) + 2 * (n // max(1, c.seg_len))
         for i in range(steps):
-            st = s.sm("S")
+            # mostly one state machine call per round; sometimes two user/peer events follow each other
+            # without one (e.g. a cancel request right after a NAK was served)
+            if i == 0 or well_behaved or quiet or rng.chance(0.8):
+                st = s.sm("S")
             if st.ok and st.tid != "-":
                 seq_s = int(st.tid.split(":")[1].split("/")[0])
             pd = s.drain("S") if rng.chance(0.95) or well_behaved or always_drain else []
